@@ -141,8 +141,8 @@ def spec() -> Spec:
         generate=generate,
         extract=extract,
         nontrivial=nontrivial,
-        budget={"quick": 1200, "thorough": 25000},
-        search_budget={"quick": 2500, "thorough": 25000},
+        budget={"quick": 900, "thorough": 20000},
+        search_budget={"quick": 1800, "thorough": 20000},
         rule="one Node per case (window from {30..100, 30..21600, 1..1, 5..86400, 10..10, 2..7, 60..3600} s), wall-clock offset from 7 values "
              "(sub-second phases, near the epoch, far future); 8-60 ops: manifests through ingest / request / replica receipt (genuine or "
              "tampered) / announce with expiry in {past, now, now+1, min-1, min, min+1, mid, max-1, max, max+1, max+2, +10 y .. +250 y}, "
